@@ -39,9 +39,11 @@ theorem removeConsolidate_false_of {f f' g : Forest} {pu nv : Option Nat}
           | some ns => rw [hp, hn] at h; simp at h
 
 theorem addConsolidate_prev_merge {f : Forest} {node p : Nat} {a ps : Str} (next : Option Nat)
-    (hc : f.consolidation = true) (hn : f.textOf node = some a) (hp : f.textOf p = some ps) :
+    (hc : f.consolidation = true) (hn : f.textOf node = some a) (hp : f.textOf p = some ps)
+    (hne : p ≠ node) :
     f.addConsolidate node (some p) next = ((f.setValue p (.text (ps ++ a))).spliceOut node, true) := by
-  unfold addConsolidate
+  rw [addConsolidate_eq_old, selfPrev_of_ne (by simpa using hne)]
+  unfold addConsolidateOld
   simp [hc, hn, hp]
 
 /-- indextree `remove` of a leaf is `remove_subtree`. -/
